@@ -262,6 +262,10 @@ def mk(clsname, *fields):
     return cls(*fields)
 
 
+def truthy(x):
+    return bool(x)
+
+
 def nfields(obj):
     return len(obj) if isinstance(obj, tuple) else len(getattr(obj, '__slots__', ()))
 
